@@ -14,7 +14,6 @@ type (
 
 type Pointer[T any] struct{ zzvsched.AtomicPointer[T] }
 
-
 func LoadInt32(p *int32) int32                      { return zzvsched.LoadInt32(p) }
 func StoreInt32(p *int32, v int32)                  { zzvsched.StoreInt32(p, v) }
 func AddInt32(p *int32, d int32) int32              { return zzvsched.AddInt32(p, d) }
